@@ -1549,13 +1549,21 @@ static mi_page_t* mi_segments_page_alloc(mi_heap_t* heap, mi_page_kind_t page_ki
   mi_page_t* page = mi_segments_page_find_and_allocate(slices_needed, heap->arena_id, tld); //(required <= MI_SMALL_SIZE_MAX ? 0 : slices_needed), tld);
   if (page==NULL) {
     // no free page, allocate a new segment and try again
-    if (mi_segment_reclaim_or_alloc(heap, slices_needed, block_size, tld) == NULL) {
+    mi_segment_t* const segment = mi_segment_reclaim_or_alloc(heap, slices_needed, block_size, tld);
+    if (segment == NULL) {
       // OOM or reclaimed a good page in the heap
       return NULL;
     }
     else {
       // otherwise try again
-      return mi_segments_page_alloc(heap, page_kind, required, block_size, tld);
+      const bool is_fresh = (segment->used == 0);  // a reclaimed segment has pages in use
+      page = mi_segments_page_alloc(heap, page_kind, required, block_size, tld);
+      if (is_fresh && segment->used == 0) {
+        // the retry did not use the fresh segment (a span was freed in another segment while abandoning or
+        // reclaiming, or a commit failed): free it, as a segment without pages would never be freed later on.
+        mi_segment_free(segment, false, tld);
+      }
+      return page;
     }
   }
   mi_assert_internal(page != NULL && page->slice_count*MI_SEGMENT_SLICE_SIZE == page_size);
